@@ -14,6 +14,8 @@ import DatamonVerif.Drv.C12
 import DatamonVerif.Drv.C09
 import DatamonVerif.Drv.C05
 import DatamonVerif.Drv.C10
+import DatamonVerif.Drv.C13
+import DatamonVerif.Drv.C14
 open DV
 
 def main (args : List String) : IO UInt32 := do
@@ -24,6 +26,7 @@ def main (args : List String) : IO UInt32 := do
   | ["model", "C02"] => loop CafsDrv.handler inp out CafsDrv.handler.init; return 0
   | ["model", "C03"] => loop CafsDrv.handler inp out CafsDrv.handler.init; return 0
   | ["model", "C04"] => loop C04.handler inp out C04.handler.init; return 0
+  | ["model", "C15"] => loop C04.handler inp out C04.handler.init; return 0
   | ["model", "C06"] => loop C06.handler inp out C06.handler.init; return 0
   | ["model", "C21"] => loop C21.handler inp out C21.handler.init; return 0
   | ["model", "C22"] => loop C22.handler inp out C22.handler.init; return 0
@@ -38,4 +41,6 @@ def main (args : List String) : IO UInt32 := do
   | ["model", "C09"] => loop C09.handler inp out C09.handler.init; return 0
   | ["model", "C05"] => loop C05.handler inp out C05.handler.init; return 0
   | ["model", "C10"] => loop C10.handler inp out C10.handler.init; return 0
+  | ["model", "C13"] => loop C13.handler inp out C13.handler.init; return 0
+  | ["model", "C14"] => loop C14.handler inp out C14.handler.init; return 0
   | _ => IO.eprintln "usage: dvdriver model <Cxx>"; return 2
